@@ -1,4 +1,130 @@
-import DesperModel.World
+import DesperProofs.Lemmas.WorldQuery
+/-
+  C01 — World queries always agree on who owns which component.
+
+  Model: DesperModel/World.lean.  `run U s₀ ops` is the state after ANY finite sequence of World
+  operations (create with automatic or imposed ids, add, replace, remove, deferred or immediate
+  delete, process, clear, processors, dispatch toggles — raising callbacks included), so every
+  statement below holds after every prefix of every history.  `row s e` is the entity's row of
+  `_entities`, `idx s t` the set `_components[t]`; `Sub U t' t`: `t'` is `t` or a subclass of it.
+-/
 open Desper Desper.World
 
-theorem C01_placeholder : (1:Nat) = 1 := rfl
+/-- The two tables never disagree: an entity is in the index of a type iff its row has a component
+filed under that type; a component is filed under its exact type; empty rows do not exist. -/
+theorem C01_transpose (U : Universe) (hints : List (List Ent)) (ops : List Op) :
+    let s := run U { sweepHints := hints } ops
+    (∀ e t, e ∈ idx s t ↔ (Dict.get? (row s e) t).isSome) ∧
+    (∀ e t c, Dict.get? (row s e) t = some c → tyOf U c = t) ∧
+    (∀ e r, Dict.get? s.ents e = some r → r ≠ []) := by
+  have h := tabInv_run (tabInv_init U hints) ops
+  exact ⟨h.transpose, h.rowTyped, h.noEmptyRow⟩
+
+/-- `get(T)` lists exactly one `(entity, component)` pair for every attached component whose type
+is `T` or a subclass of `T`, and nothing else. -/
+theorem C01_get (U : Universe) (hU : U.WF) (hints : List (List Ent)) (ops : List Op) (t : Ty) :
+    let s := run U { sweepHints := hints } ops
+    (∀ e c, (e, c) ∈ World.get U s t ↔ ∃ st, Sub U st t ∧ Dict.get? (row s e) st = some c) ∧
+    (World.get U s t).Nodup := by
+  have h := tabInv_run (tabInv_init U hints) ops
+  generalize run U { sweepHints := hints } ops = s at h
+  refine ⟨?_, ?_⟩
+  · intro e c
+    simp only [World.get, List.mem_flatMap, List.mem_filterMap, mem_dedup, Option.map_eq_some_iff,
+      Prod.mk.injEq]
+    constructor
+    · rintro ⟨st, hst, e', _, c', hc', he, hc⟩
+      subst he; subst hc
+      exact ⟨st, (mem_visit U hU t st).mp hst, hc'⟩
+    · rintro ⟨st, hs, hc⟩
+      refine ⟨st, (mem_visit U hU t st).mpr hs, e, ?_, c, hc, rfl, rfl⟩
+      exact (h.transpose e st).mpr (by simp [hc])
+  · unfold World.get
+    rw [List.Nodup, List.pairwise_flatMap]
+    refine ⟨?_, ?_⟩
+    · intro st _
+      -- distinct entities give distinct pairs
+      have hn := h.idxNodup st
+      generalize idx s st = l at hn
+      induction l with
+      | nil => simp
+      | cons a l ih =>
+        rw [List.nodup_cons] at hn
+        simp only [List.filterMap_cons]
+        split
+        · exact ih hn.2
+        · rename_i b hb
+          rw [List.pairwise_cons]
+          refine ⟨?_, ih hn.2⟩
+          intro x hx
+          simp only [List.mem_filterMap, Option.map_eq_some_iff] at hx hb
+          obtain ⟨e', he', c', _, rfl⟩ := hx
+          obtain ⟨c'', _, rfl⟩ := hb
+          intro heq
+          simp only [Prod.mk.injEq] at heq
+          exact hn.1 (heq.1 ▸ he')
+    · -- pairs found under different types are different components
+      refine List.Pairwise.imp_of_mem ?_ (nodup_dedup (visit U t))
+      intro st1 st2 _ _ hne x hx y hy
+      simp only [List.mem_filterMap, Option.map_eq_some_iff] at hx hy
+      obtain ⟨e1, _, c1, hc1, rfl⟩ := hx
+      obtain ⟨e2, _, c2, hc2, rfl⟩ := hy
+      intro heq
+      simp only [Prod.mk.injEq] at heq
+      obtain ⟨he, hc⟩ := heq
+      subst he; subst hc
+      exact hne ((h.rowTyped e1 st1 c1 hc1).symm.trans (h.rowTyped e1 st2 c1 hc2))
+
+/-- `get_components(e)` returns precisely the components attached to `e`. -/
+theorem C01_get_components (U : Universe) (hints : List (List Ent)) (ops : List Op) (e : Ent)
+    (c : Obj) :
+    let s := run U { sweepHints := hints } ops
+    c ∈ getComponents s e ↔ ∃ t, Dict.get? (row s e) t = some c := by
+  have h := tabInv_run (tabInv_init U hints) ops
+  exact Dict.mem_values_iff _ (h.rowKeys e) c
+
+/-- `entities` / `entity_exists` name exactly the entities that own at least one component and
+are not awaiting deletion; `entities` lists each once. -/
+theorem C01_entities (U : Universe) (hints : List (List Ent)) (ops : List Op) (e : Ent) :
+    let s := run U { sweepHints := hints } ops
+    (e ∈ entities s ↔ (row s e ≠ [] ∧ e ∉ s.dead)) ∧
+    (entityExists s e = true ↔ (row s e ≠ [] ∧ e ∉ s.dead)) ∧ (entities s).Nodup := by
+  have h := tabInv_run (tabInv_init U hints) ops
+  generalize run U { sweepHints := hints } ops = s at h
+  have key : (Dict.get? s.ents e).isSome ↔ row s e ≠ [] := by
+    cases hg : Dict.get? s.ents e with
+    | none => simp [row, hg]
+    | some r => simp [row, hg, h.noEmptyRow e r hg]
+  refine ⟨?_, ?_, h.entKeys.sublist List.filter_sublist⟩
+  · simp only [entities, List.mem_filter, Dict.mem_keys_iff, key]
+    simp
+  · simp only [entityExists, Bool.and_eq_true, key]
+    simp
+
+/-- An automatically assigned identifier never names an entity that already owns components. -/
+theorem C01_fresh_auto_id (U : Universe) (s : St) (cs : List Obj) :
+    Dict.get? s.ents (createEntity U s none cs).2.2 = none ∧
+    row s (createEntity U s none cs).2.2 = [] := by
+  have hk : (createEntity U s none cs).2.2 =
+      freshFrom (Dict.keys s.ents) ((Dict.keys s.ents).length + 1) s.nextId := by
+    unfold createEntity
+    simp only
+    split <;> rfl
+  have hn := freshFrom_not_mem (Dict.keys s.ents) ((Dict.keys s.ents).length + 1) s.nextId
+    (Nat.lt_succ_of_le (List.length_filter_le _ _))
+  rw [← hk, Dict.mem_keys_iff] at hn
+  have hnone : Dict.get? s.ents (createEntity U s none cs).2.2 = none := by
+    cases hg : Dict.get? s.ents (createEntity U s none cs).2.2 with
+    | none => rfl
+    | some r => simp [hg] at hn
+  exact ⟨hnone, by simp [row, hnone]⟩
+
+/-! non-vacuity: replacement, an imposed id, an automatic id that has to skip it -/
+private def exU : Universe :=
+  { classes := [{ bases := [] }, { bases := [0] }], mapping := fun _ => none,
+    objTy := fun o => some (o % 2), raises := fun _ _ _ => none }
+
+example :
+    let s := run exU {} [.create (some 1) [0], .add 1 2, .create none [1], .delete 1 false]
+    World.get exU s 0 = [(1, 2), (2, 1)] ∧ entities s = [2] ∧ (step exU (run exU {} [.create (some 1) [0]]) (.create none [1])).2.2 = "2" := by
+  decide
